@@ -18,6 +18,7 @@ func init() {
 			c.run("C10-R5", "LITERAL: stop-and-delete message agreement", c10R5)
 			c.run("C10-R6", "ORDER: flavour visible to whoever sees the latch; first stop wins", func(c *Ctx) { c10R6(c); c10R6Reader(c) })
 			c.run("C10-R7", "WHO-CALLS: the stop error travels unwrapped from the stop check to the reporter", c10R7)
+			c.run("C10-R8", "MUST-PASS/WHO-CALLS: SIGINT/SIGTERM on the server reach the stop entry point", c10R8)
 			c.run("C10-S", "shared with C02: success only after the digest compare and the saved==size gate", func(c *Ctx) { c02Digest(c); c02SavedSize(c) })
 		})
 }
@@ -588,5 +589,81 @@ func c10R7(c *Ctx) {
 	}
 	if n < 40 {
 		c.undecided("stop-error-sites", "fewer call sites of stop-error functions than expected")
+	}
+}
+
+// c10R8: the server's signal path. SIGINT and SIGTERM are routed to a channel; the goroutine that receives
+// from that channel calls the stop entry point of the transfer the server then runs, on every path.
+func c10R8(c *Ctx) {
+	h := c.fn("handleServerSignal")
+	g := c.fn("handleServerSignal$1")
+	var notify ssa.CallInstruction
+	for _, ci := range callsIn(h, idIs("os/signal.Notify")) {
+		notify = ci
+	}
+	if notify == nil {
+		c.bad("handleServerSignal/notify", c.pos(h.Pos()), "signals are no longer routed to the stop goroutine (no signal.Notify)")
+		return
+	}
+	els, ok := sliceElems(notify.Common().Args[1])
+	hasInt, hasTerm := false, false
+	if ok {
+		for _, e := range els {
+			v := strip(e.V)
+			if u, isU := v.(*ssa.UnOp); isU {
+				if gl, isG := u.X.(*ssa.Global); isG && gl.Name() == "Interrupt" {
+					hasInt = true
+				}
+			}
+			if k, isK := constInt(v); isK && k == 15 {
+				hasTerm = true
+			}
+		}
+	}
+	c.check(hasInt && hasTerm, "handleServerSignal/signals", c.ipos(notify), "SIGINT and SIGTERM are both routed to the stop goroutine", "SIGINT / SIGTERM is not routed to the stop goroutine")
+	// the goroutine: receive on the notified channel, then stop
+	var recv ssa.Instruction
+	eachInstr(g, func(in ssa.Instruction) {
+		if u, ok := in.(*ssa.UnOp); ok && u.Op == token.ARROW && c.sharesSite(u.X, notify.Common().Args[0]) {
+			recv = in
+		}
+	})
+	if recv == nil {
+		c.bad("handleServerSignal/receives", c.pos(g.Pos()), "the stop goroutine does not receive from the channel the signals are delivered to")
+		return
+	}
+	isStop := func(in ssa.Instruction) bool {
+		ci, ok := in.(ssa.CallInstruction)
+		return ok && calleeID(ci.Common()) == tT+"stopTransferringFiles" && isVar("transfer")(ci.Common().Args[0])
+	}
+	hit, path := reachAvoid(recv, isReturn, isStop)
+	c.check(hit == nil, "handleServerSignal/signal=>stop", c.ipos(recv), "after a signal every path calls the stop entry point of the transfer it was given", "a signal can be consumed without stopping the transfer", c.pathStr(path)...)
+	started := false
+	eachInstr(h, func(in ssa.Instruction) {
+		if gi, ok := in.(*ssa.Go); ok {
+			if mc, ok := gi.Call.Value.(*ssa.MakeClosure); ok && mc.Fn == ssa.Value(g) && domI(notify.(ssa.Instruction), gi) {
+				started = true
+			}
+		}
+	})
+	c.check(started, "handleServerSignal/goroutine-started", c.pos(h.Pos()), "the stop goroutine is started after the signals are routed", "the stop goroutine is not started")
+	// both servers install it for the transfer they run, before running it
+	for _, m := range []struct{ main, worker string }{{"TrzMain", "trzsz.recvFiles"}, {"TszMain", "trzsz.sendFiles"}} {
+		mf := c.fn(m.main)
+		calls := callsIn(mf, idIs("trzsz.handleServerSignal"))
+		good := len(calls) == 1
+		if good {
+			tr := calls[0].Common().Args[0]
+			found := false
+			for _, sub := range withAnons(mf) {
+				for _, w := range callsIn(sub, idIs(m.worker)) {
+					if c.sharesSite(w.Common().Args[0], tr) || sameValue(w.Common().Args[0], tr) {
+						found = true
+					}
+				}
+			}
+			good = found
+		}
+		c.check(good, m.main+"/installs-signal-stop", c.pos(mf.Pos()), "the server installs the signal handler for the transfer it runs", "the server does not install the signal handler for the transfer it runs")
 	}
 }
